@@ -1516,7 +1516,11 @@ def main(tier, seed, replay=None):
 
     # 4. sensitivity: in-memory mutants on scenarios the unmutated code passes; corrupted traces
     good = [sc for sc, t in zip(scs, traces) if verdicts[t['id']][0] == 'ok']
-    sub = good[::max(1, len(good) // (70 if tier == 'quick' else 300))]
+    # the FIFO single-attempt sweeps are always part of the sample (a witness for every mutant), the rest is thinned
+    core = [sc for sc in good if sc['policy'][0] == 'fifo' and len(sc['attempts']) == 1]
+    core = [sc for i, sc in enumerate(core) if i % 2 == 0 or (sc['attempts'][0].get('fault') or [9])[0] <= 2]
+    rest = [sc for sc in good if sc not in core]
+    sub = core + rest[::max(1, len(rest) // (40 if tier == 'quick' else 250))]
     for name in sorted(MUTANTS):
         if name in REVERTS:
             continue
